@@ -976,6 +976,10 @@ func main() {
 			return callArgIs(repo, bs, "replicate", "TopicSubscribe", 1, "b.id", "storeTopicIsAddress",
 				"the pubsub topic a store subscribes to is named by its address (b.id), not by anything databases may share")
 		}},
+		{"GenNewPeer", func() string {
+			return callArgIs(repo, bs, "pubSubChanListener", "NewEventNewPeer", 0, "b.Address()", "newPeerEventHasAddress",
+				"the new-peer event a store emits on the shared bus carries the address of that store")
+		}},
 		{"GenResolve", func() string {
 			return errCheckedAfter(repo, "baseorbitdb/orbitdb.go", "createStore", "acutils.Resolve(", "resolveErrChecked",
 				"an access controller that cannot be resolved ends createStore with an error (no store under a fallback controller)")
